@@ -486,6 +486,13 @@ def gen_scenario(rng, sid, p_malformed=0.15, max_depth=5, p_multi=0.3, allow_asy
             if cls == "ok":
                 lits += [tok_of_const(c.value) for c in ast.walk(node) if isinstance(c, ast.Constant)]
     lits = [t for t in lits if t]
+    flavour = rng.choice(["mixed", "mixed", "numeric", "numeric", "str"])
+    if flavour == "numeric":
+        tpool, fpool = [t for t in TRUTHY if t[0] in "Tif"], [t for t in FALSY if t[0] in "Fif"]
+    elif flavour == "str":
+        tpool, fpool = [t for t in TRUTHY if t[0] == "s"], [t for t in FALSY if t[0] in "sN"]
+    else:
+        tpool, fpool = TRUTHY, FALSY
     rounds = []
     for _ in range(rng.choice([2, 3, 4, 5, 6])):
         rho = {}
@@ -494,9 +501,9 @@ def gen_scenario(rng, sid, p_malformed=0.15, max_depth=5, p_multi=0.3, allow_asy
             if lits and r < 0.3:
                 rho[s] = rng.choice(lits)
             elif r < 0.65:
-                rho[s] = rng.choice(TRUTHY)
+                rho[s] = rng.choice(tpool)
             else:
-                rho[s] = rng.choice(FALSY)
+                rho[s] = rng.choice(fpool)
         rounds.append(rho)
     return dict(id=sid, names=names, entries=entries, rounds=rounds, force_async=force_async,
                 malformed=malformed)
@@ -520,6 +527,18 @@ def enum_trees(k, leaves, memo):
                     res.append(("or", [a, b]))
     memo[k] = res
     return res
+
+
+def enum_chains(max_links):
+    """all comparisons `o0 op1 o1 … opk ok`, 1 <= k <= max_links, operands from {x, y, 1}, all six operators"""
+    import itertools
+    operands = [("name", "x"), ("name", "y"), ("const", "i1", "1")]
+    out = []
+    for k in range(1, max_links + 1):
+        for os_ in itertools.product(operands, repeat=k + 1):
+            for ops in itertools.product(list(CMP_TEXT), repeat=k):
+                out.append(("cmp", os_[0], list(zip(ops, os_[1:]))))
+    return out
 
 
 def render_plain(e, idx):
